@@ -146,7 +146,16 @@ public:
         }
 
         // Solver object
-        m_eigs = new SymEigsSolver<SVDMatOp<Scalar>>(*m_op, ncomp, ncv);
+        // Its constructor throws for invalid (ncomp, ncv): do not leak the operator
+        try
+        {
+            m_eigs = new SymEigsSolver<SVDMatOp<Scalar>>(*m_op, ncomp, ncv);
+        }
+        catch (...)
+        {
+            delete m_op;
+            throw;
+        }
     }
 
     // Destructor
